@@ -162,7 +162,7 @@ def _run_batch(label, cmd_prefix, batch, logic, timeout_s):
 
 def cross_check(batch, timeout_s=300, logic='ALL', tier='thorough', seed=0, quick_z3=150, quick_cvc5=30):
     """batch: list of (name, [z3 conds], expected 'sat'|'unsat').
-    Re-decide with the independent binaries /usr/bin/z3 4.8.12 and cvc5 1.0.3.  thorough: every obligation with both (at most 4000 each);
+    Re-decide with the independent binaries /usr/bin/z3 4.8.12 and cvc5 1.0.3.  thorough: every obligation with z3 4.8.12 (at most 4000) and a seeded sample of 400 with cvc5;
     quick: a seeded sample (quick_z3 / quick_cvc5 obligations).  Any error line or disagreement -> Inconclusive; an obligation
     the second solver cannot decide within its per-query budget is counted in `*_undecided_*` (z3 5.1.0's verdict stands)."""
     import random
@@ -172,7 +172,7 @@ def cross_check(batch, timeout_s=300, logic='ALL', tier='thorough', seed=0, quic
     rnd = random.Random(seed + 7)
     # thorough: every obligation, up to 4000 per solver (beyond that a seeded sample of 4000: stated in the evidence)
     cap1 = 4000 if tier == 'thorough' else quick_z3
-    cap2 = 4000 if tier == 'thorough' else quick_cvc5
+    cap2 = 400 if tier == 'thorough' else quick_cvc5      # cvc5 needs minutes (and gigabytes) for some bit-vector string obligations
     b1 = batch if len(batch) <= cap1 else rnd.sample(batch, cap1)
     b2 = batch if len(batch) <= cap2 else rnd.sample(batch, cap2)
     stats['sampled'] = len(batch) > min(cap1, cap2)
@@ -190,14 +190,12 @@ def cross_check(batch, timeout_s=300, logic='ALL', tier='thorough', seed=0, quic
         bvq, rest = split(b)
         dt = 0.0
         und = 0
-        if bvq:
-            d_, u_ = _run_batch(label + '-bv', cmd, bvq, 'QF_BV', per)
-            dt += d_
-            und += u_
-        if rest:
-            d_, u_ = _run_batch(label, cmd, rest, logic, per)
-            dt += d_
-            und += u_
+        # one solver process per 200 obligations: a long incremental session makes cvc5 grow to tens of gigabytes
+        for lab2, qs, lg in ((label + '-bv', bvq, 'QF_BV'), (label, rest, logic)):
+            for i in range(0, len(qs), 200):
+                d_, u_ = _run_batch(lab2, cmd, qs[i:i + 200], lg, per)
+                dt += d_
+                und += u_
         key = 'z3_old' if label == 'z3old' else 'cvc5'
         stats[key + '_s'] = round(dt, 2)
         stats[key + '_queries'] = len(b)
